@@ -143,8 +143,18 @@ def run_pipeline(left, right, pipeline):
             out["cfg"] = copy.deepcopy(cfg)
             with observed_validity_mask(out["stage1"]):
                 machine.run_prepare(cfg, left, right)
+                cv_mask_at_disparity = None
                 for name in list(cfg["pipeline"]):
                     machine.run(name, cfg)
+                    if name.split(".")[0] == "disparity" and machine.left_cv is not None and "validity_mask" in machine.left_cv:
+                        cv_mask_at_disparity = np.array(machine.left_cv["validity_mask"].data, copy=True)
+                    if cv_mask_at_disparity is not None:
+                        # the flags of the cost volume belong to the cost volume: steps working on the disparity map
+                        # (refinement, filters, validation, filling) must not write into them
+                        now = np.array(machine.left_cv["validity_mask"].data)
+                        if not np.array_equal(now, cv_mask_at_disparity) and "cv_mask_changed_by" not in out:
+                            out["cv_mask_changed_by"] = name
+                            out["cv_mask_diff"] = [int(x) for x in np.argwhere(now != cv_mask_at_disparity)[0]]
                     out["steps"].append(
                         (
                             name,
